@@ -298,10 +298,16 @@ def gen_schedule(rng, tier, precision=None, allow_shrink=False):
         calls.append({'interval': rng.choice(RUNS if precision is None else [0.5, 1, 2, 3]),
                       'force': rng.random() < 0.5})
     calls[-1]['force'] = True if rng.random() < 0.7 else calls[-1]['force']
+    if rng.random() < 0.15:
+        # close a caller-managed loop with update(0): forced completion at the current time
+        calls.insert(rng.randrange(1, len(calls) + 1), {'interval': 0, 'force': True})
     order = list(range(n))
     rng.shuffle(order)
-    return {'procs': procs, 'flipper': flipper, 'calls': calls, 'precision': precision,
-            'order': order, 'emit_step': 1}
+    scn = {'procs': procs, 'flipper': flipper, 'calls': calls, 'precision': precision,
+           'order': order, 'emit_step': 1}
+    if rng.random() < 0.2:
+        scn['t0'] = rng.choice([5, 2.5, 100] if precision is None else [5, 2.5])   # initial_global_time
+    return scn
 
 
 def edge_schedules():
@@ -311,7 +317,8 @@ def edge_schedules():
     out = []
     conds = ['always', 'alt', [False, True], [False, False, True], [True, False], 'never']
     callseqs = [[(0.5, False), (0.5, False), (2, True)], [(2, False), (2, False)], [(1, False), (3, True)],
-                [(0.5, False), (1, False), (0.5, True)], [(2, True), (1, False), (1, True)], [(3, False), (0.5, True)]]
+                [(0.5, False), (1, False), (0.5, True)], [(2, True), (1, False), (1, True)], [(3, False), (0.5, True)],
+                [(3, False), (0, True), (2, True)], [(0.5, False), (0, True)]]
     for slow in (2, 3):
         for fast in (0.25, 1):
             for cond in conds:
@@ -321,6 +328,10 @@ def edge_schedules():
                                               {'name': 'p1', 'timestep': fast, 'cond': cond, 'parallel': False}],
                                     'flipper': None, 'calls': [{'interval': i, 'force': f} for i, f in cs],
                                     'precision': None, 'order': order, 'emit_step': 1})
+    for sc in list(out[::7]):
+        sc = dict(sc)
+        sc['t0'] = 5                       # the same family started at initial_global_time = 5
+        out.append(sc)
     return out
 
 
@@ -339,6 +350,24 @@ def in_shrink_region(tr):
             last_poll[name] = c
         elif c[0] in ('condition', 'next_update'):
             last_poll.pop(name, None)
+    return False
+
+
+def in_sametime_region(tr):
+    """Region of the known finding F-C12-sametime: a forced call of length 0 (update(0)) completes a
+    process that was left behind at a time for which a history row was already emitted, so a second row
+    for that same time is emitted (the RAM emitter refuses it when the values differ)."""
+    seen = set()
+    zero = False
+    for ev in tr.events:
+        if ev[0] == 'run_for-begin':
+            zero = (ev[2] == 0 and bool(ev[3]))
+        elif ev[0] == 'run_for-end':
+            zero = False
+        elif ev[0] == 'emit':
+            if zero and ev[1] in seen:
+                return True
+            seen.add(ev[1])
     return False
 
 
@@ -362,6 +391,8 @@ def build_engine(scn, parallel_names=()):
         kw['global_time_precision'] = scn['precision']
     if scn.get('emit_step', 1) != 1:
         kw['emit_step'] = scn['emit_step']
+    if scn.get('t0'):
+        kw['initial_global_time'] = scn['t0']
     eng = Engine(processes=procs, topology=topo, display_info=False, progress_bar=False, **kw)
     return eng
 
@@ -376,7 +407,12 @@ def run_schedule(scn, parallel_names=(), watchdog=20):
         with Watchdog(watchdog):
             eng = build_engine(scn, parallel_names)
             for c in scn['calls']:
-                eng.run_for(c['interval'], c['force'])
+                if c['force']:
+                    eng.update(c['interval'])           # the public forced form
+                else:
+                    eng.run_for(c['interval'], False)
+                tr.log('call-end', bool(c['force']), eng.global_time,
+                       [(p, a['time'], bool(a['update'])) for p, a in eng.front.items()])
     except TimeoutError as e:
         err = ('hang', str(e))
     except Exception as e:   # noqa
@@ -499,6 +535,13 @@ def check_c02(tr, eng, scn, final_forced):
                 fails.append('front of %s at %s after forced completion at %s' % (path, adv['time'], eng.global_time))
             if adv['update']:
                 fails.append('front of %s still holds an update after forced completion' % (path,))
+    # ... and the same after EVERY update() of the sequence, not only the last one
+    for ev in tr.events:
+        if ev[0] == 'call-end' and ev[1]:
+            for path, t, pending in ev[3]:
+                if not close(t, ev[2]) or pending:
+                    fails.append('after update() returned at %s: front of %s at %s%s'
+                                 % (ev[2], path, t, ' with a pending update' if pending else ''))
     return fails
 
 
@@ -582,7 +625,8 @@ def check_c12_rows(tr, eng, scn):
 
 def summarize(scn):
     return {'procs': [(p['name'], p.get('dts') or p['timestep'], p['cond']) for p in scn['procs']],
-            'calls': [(c['interval'], c['force']) for c in scn['calls']], 'precision': scn.get('precision')}
+            'calls': [(c['interval'], c['force']) for c in scn['calls']], 'precision': scn.get('precision'),
+            't0': scn.get('t0', 0)}
 
 
 def nontrivial_schedule(tr, scn):
